@@ -211,11 +211,29 @@ func main() {
 	}
 	defer cleanup()
 
-	bin := buildHarness(pc)
-	h := &harnessBin{pc: pc, bin: bin, prop: propID}
+	bins := map[string]*harnessBin{}
+	getBin := func(harness string) *harnessBin {
+		if harness == "" {
+			harness = pc.Harness
+		}
+		if b := bins[harness]; b != nil {
+			return b
+		}
+		b := &harnessBin{pc: pc, harness: harness, bin: buildHarness(harness), prop: propID}
+		bins[harness] = b
+		return b
+	}
+	h := getBin("")
 
+	harnessOf := func(path string) *harnessBin {
+		var rf replayFile
+		if data, err := os.ReadFile(path); err == nil && json.Unmarshal(data, &rf) == nil && rf.Harness != "" && harnesses[rf.Harness] != nil {
+			return getBin(rf.Harness)
+		}
+		return h
+	}
 	if *replayF != "" {
-		os.Exit(doReplay(h, *replayF))
+		os.Exit(doReplay(harnessOf(*replayF), *replayF))
 	}
 
 	// Known findings for this property.
@@ -231,7 +249,7 @@ func main() {
 		}
 		state := "no stored replay"
 		if kf.Replay != "" {
-			res, err := h.replay(filepath.Join(verifDir, kf.Replay), map[string]string{"windows": "off"})
+			res, err := harnessOf(filepath.Join(verifDir, kf.Replay)).replay(filepath.Join(verifDir, kf.Replay), map[string]string{"windows": "off"})
 			switch {
 			case err != nil:
 				fatal2("replaying known finding %s: %v", kf.ID, err)
@@ -250,7 +268,7 @@ func main() {
 	// Stored replays of fixed findings and of seeded regressions must stay clean.
 	for _, kf := range kfs {
 		if kf.Status == "fixed" && kf.Replay != "" {
-			res, err := h.replay(filepath.Join(verifDir, kf.Replay), nil)
+			res, err := harnessOf(filepath.Join(verifDir, kf.Replay)).replay(filepath.Join(verifDir, kf.Replay), nil)
 			if err != nil {
 				fatal2("replaying fixed finding %s: %v", kf.ID, err)
 			}
@@ -286,10 +304,12 @@ func main() {
 		if len(windows) > 0 && !*noQuar {
 			flags["windows"] = strings.Join(windows, "+")
 		}
-		v := h.explore(seed+uint64(fi)*7919, runs, budget, flags, agg, fam.Name)
+		fh := getBin(fam.Harness)
+		v := fh.explore(seed+uint64(fi)*7919, runs, budget, flags, agg, fam.Name)
 		if v != nil && firstViol == nil {
 			firstViol = v
 			violFlags = flags
+			h = fh
 			break
 		}
 	}
@@ -324,7 +344,7 @@ func firstLine(s string) string {
 
 // ---------------------------------------------------------------- build
 
-func buildHarness(pc *propConfig) string {
+func buildHarness(harness string) string {
 	env := goEnv()
 	simgen := filepath.Join(verifDir, "bin", "simgen")
 	if _, err := os.Stat(simgen); err != nil {
@@ -332,8 +352,10 @@ func buildHarness(pc *propConfig) string {
 			fatal2("building simgen: %v\n%s", err, out)
 		}
 	}
-	hc := harnesses[pc.Harness]
-	args := []string{"-out", scratch, "-repo", repoDir, "-verif", verifDir, "-mount", strings.Join(hc.Mounts, ",")}
+	hc := harnesses[harness]
+	outDir := filepath.Join(scratch, "gen-"+harness)
+	os.MkdirAll(outDir, 0777)
+	args := []string{"-out", outDir, "-repo", repoDir, "-verif", verifDir, "-mount", strings.Join(hc.Mounts, ",")}
 	if hc.RootPkgs != "" {
 		args = append(args, "-pkgs", hc.RootPkgs)
 	}
@@ -343,8 +365,8 @@ func buildHarness(pc *propConfig) string {
 	if out, err := run(verifDir, env, simgen, args...); err != nil {
 		fatal2("generating the simulation build failed (not a property violation): %v\n%s", err, out)
 	}
-	bin := filepath.Join(scratch, pc.Harness)
-	overlay := filepath.Join(scratch, "overlay.json")
+	bin := filepath.Join(scratch, harness)
+	overlay := filepath.Join(outDir, "overlay.json")
 	dir := repoDir
 	if hc.Module == "godev" {
 		dir = filepath.Join(repoDir, "godev")
@@ -357,19 +379,20 @@ func buildHarness(pc *propConfig) string {
 		out, err = run(dir, env, "go", "build", "-overlay", overlay, "-o", bin, hc.Package)
 	}
 	if err != nil {
-		fatal2("building harness %s failed (not a property violation): %v\n%s", pc.Harness, err, out)
+		fatal2("building harness %s failed (not a property violation): %v\n%s", harness, err, out)
 	}
 	return bin
 }
 
 type harnessBin struct {
-	pc   *propConfig
-	bin  string
-	prop string
+	pc      *propConfig
+	harness string
+	bin     string
+	prop    string
 }
 
 func (h *harnessBin) cmd(args ...string) *exec.Cmd {
-	hc := harnesses[h.pc.Harness]
+	hc := harnesses[h.harness]
 	var full []string
 	if hc.TestHosted {
 		full = append(full, "-test.run", "^TestVerifSim$", "-test.timeout", "0", "--")
@@ -810,7 +833,7 @@ func (h *harnessBin) writeReplay(v *runResult, tape []uint32, flags map[string]s
 	dir := filepath.Join(verifDir, "replays", h.prop)
 	os.MkdirAll(dir, 0777)
 	path := filepath.Join(dir, fmt.Sprintf("%s-seed%d-run%d.json", h.prop, v.Seed, v.Run))
-	rf := replayFile{Property: h.prop, Harness: h.pc.Harness, Seed: v.Seed, Run: v.Run, Flags: flags, Tape: tape, Violation: v.Violation}
+	rf := replayFile{Property: h.prop, Harness: h.harness, Seed: v.Seed, Run: v.Run, Flags: flags, Tape: tape, Violation: v.Violation}
 	write := func() {
 		js, _ := json.MarshalIndent(rf, "", " ")
 		if err := os.WriteFile(path, js, 0666); err != nil {
